@@ -1,8 +1,9 @@
 """C14 - retry makes exactly the allowed attempts and reports the true last outcome."""
 import asyncio
 import logging
+import random
 
-from harness.legs import cfg_text, leg_m, leg_mutant, leg_r
+from harness.legs import cfg_text, gen_traces, leg_m, leg_mutant, leg_r, leg_t_gen
 from harness.vloop import VClock, VLoop
 
 SPEC = "Retry"
@@ -151,6 +152,32 @@ class RetryDriver:
         return dict(status="returned" if got[0] == "val" else "raised", calls=calls, pauses=pauses, result=res)
 
 
+def gen_trace(rnd, max_limit=9):
+    """one call with a random configuration (limit up to 9) and a random outcome script, recorded from the real wrapper"""
+    form = rnd.choice(["class", "tuple", "set", "tuple_with_cancelled", "all", "bare"])
+    cfg = dict(limit=1, form="bare", delay="none", mode=rnd.choice(["sync", "async"])) if form == "bare" else \
+        dict(limit=rnd.randint(1, max_limit), form=form, delay=rnd.choice(["none", "int", "float", "fn"]),
+             mode=rnd.choice(["sync", "async"]))
+    d = RetryDriver()
+    d.reset(dict(cfg=cfg))
+    tr = [dict(ev="Init", init=dict(cfg=cfg))]
+    weights = ["caught"] * 6 + ["sub"] * 3 + ["other"] * 3 + ["uncaught", "ok", "cancelled", "base"]
+    for _ in range(cfg["limit"] + 2):
+        o = rnd.choice(weights)
+        obs = d.apply("Attempt", (o,))
+        tr.append(dict(ev="Attempt", args=[o], obs=dict(status=obs["status"], calls=obs["calls"],
+                                                        pauses=[list(p) for p in obs["pauses"]], result=obs["result"])))
+        if obs["status"] != "running":
+            break
+    return tr
+
+
+TRACE_KW = dict(
+    variables=["cfg", "calls", "attempt", "hist", "pauses", "status", "result", "obs"],
+    constants=dict(MaxLimit=9, Bug='"none"'), config_vars=["cfg"], actions=dict(Attempt=1),
+    invariants=["CallsBound", "ExactAttempts", "NoEarlyStop", "TrueLastOutcome", "NeverRetryBase", "PausesRight"])
+
+
 def run(rep, work, tier, seed):
     lim = 2 if tier == "quick" else 4
     c = dict(MaxLimit=lim, Bug="none")
@@ -163,6 +190,10 @@ def run(rep, work, tier, seed):
                          ("no_pause", ["PausesRight"])):
             leg_mutant(rep, work, SPEC, f"mutant_{bug}", cfg_text(dict(MaxLimit=2, Bug=bug), invariants=INVS), inv)
     leg_r(rep, work, SPEC, f"conf_{tier}", cfg_text(c, invariants=INVS), RetryDriver)
+    # leg T: limits up to 9 with random outcome scripts, validated by the generated trace module
+    rnd = random.Random(seed * 37 + 3)
+    traces = gen_traces(rep, lambda: gen_trace(rnd), 300 if tier == "quick" else 4000)
+    leg_t_gen(rep, work, SPEC, f"trace_{tier}", traces, **TRACE_KW)
     rep.assumptions += [
         "the wrapped function is a scripted double; outcomes are drawn from 7 classes (success, caught class, subclass "
         "of caught, second caught class, uncaught Exception, CancelledError, other BaseException)",
